@@ -1068,7 +1068,7 @@ func (engine) Generate(rng *rand.Rand, tier string) []core.Case {
 	// 2. the translated arithmetic, directly
 	nArith := 600
 	if thorough {
-		nArith = 20000
+		nArith = 8000
 	}
 	cnt := func() int {
 		switch rng.Intn(10) {
@@ -1168,7 +1168,7 @@ func (engine) Generate(rng *rand.Rand, tier string) []core.Case {
 	// 4. random structured requests
 	nAuthor := 2500
 	if thorough {
-		nAuthor = 60000
+		nAuthor = 14000
 	}
 	for i := 0; i < nAuthor; i++ {
 		nOut := rng.Intn(5)
